@@ -575,6 +575,14 @@ class Interp:
             if a.sym is None and b.sym is None:
                 return a.concrete == b.concrete
             return self.set_z3(a) == self.set_z3(b)
+        if isinstance(a, OpaqueV) and isinstance(b, OpaqueV) and is_z3(a.expr) and is_z3(b.expr) and \
+                a.expr.sort() == b.expr.sort():
+            # values of an abstract sort: the same term denotes the same value; different terms are NOT known to differ
+            if a.expr.eq(b.expr):
+                return True
+            raise Unsupported('== between different values of an abstract sort')
+        if isinstance(a, RecV) and isinstance(b, RecV) and a.schema is b.schema:
+            return a.expr == b.expr
         if isinstance(a, (ClassV, BuiltinClass, FuncV)) or isinstance(b, (ClassV, BuiltinClass, FuncV)):
             return a is b
         ca, cb = self.class_of(a), self.class_of(b)
